@@ -65,6 +65,11 @@ func oracle(c Case, o *h.Obs) *h.Fail {
 func TestC08(t *testing.T) {
 	c := h.New(t, "C08")
 	defer c.Finish()
+	if c.Thorough() {
+		// the thorough tier also explores larger programs
+		profile.MaxDepth++
+		profile.MaxStmts += 2
+	}
 	c.Rule("constructive generator, profile 'control': if/else-if/else, switch with multi-expression cases and default at any position, for{}, for cond{}, C-style loops, for-in over lists and maps, nested <=5 deep inside functions, break/continue/return (0,1,2 values) at every position, conditions from every truthiness class; non-trivial = a break/continue/return crossed >=1 enclosing if/else/switch/try block before being consumed; distinct by source text")
 	h.Run(c, "control", c.N(12000, 120000), gen, oracle)
 	h.Run(c, "trysignal", 1, genTrySignal, oracleTrySignal)
